@@ -85,6 +85,21 @@
                        ("1.5百万", "1500000"), ("1.5百万1.5千20", "1501520"), ("2.5億3千", "250003000"), ("0.5千", "500"), ("1.05万", "10500"), ("千三百二十七.〇五", "1327.05")] {
             check(t.to_string(), Some(w.to_string()), &mut failures);
         }
+        // 4b. a fraction scaled by a unit AFTER a higher group: the scaled fraction is added below the digits present
+        let highs: [(&str, u128, u128); 6] = [("3億", 300_000_000, 100_000_000), ("三億", 300_000_000, 100_000_000), ("1兆", 1_000_000_000_000, 1_000_000_000_000),
+                                              ("2万", 20_000, 10_000), ("二千", 2_000, 1_000), ("1兆2億", 1_000_200_000_000, 100_000_000)];
+        let fracs: [(&str, u128); 5] = [("2.5", 250), ("1.5", 150), ("1.25", 125), ("0.5", 50), ("12.5", 1250)];      // hundredths
+        let funits: [(&str, u128); 5] = [("万", 10_000), ("千", 1_000), ("百", 100), ("千万", 10_000_000), ("百万", 1_000_000)];
+        for (ht, hv, hlow) in highs.iter() { for (ft, fh) in fracs.iter() { for (ut, uv) in funits.iter() {
+            let scaled = fh * uv;                       // in hundredths
+            if scaled % 100 != 0 { continue; }
+            let add = scaled / 100;
+            // the scaled group must lie entirely below the lowest unit of the higher part, and a unit like 千万 must itself be below it
+            if add >= *hlow || *uv >= *hlow { continue; }
+            // the small units 千 百 may only follow a group without a large unit of the same block
+            if (*ut == "千" || *ut == "百") && *hlow < 10_000 && *uv >= *hlow { continue; }
+            check(format!("{}{}{}", ht, ft, ut), Some((hv + add).to_string()), &mut failures);
+        }}}
         // 5. near-miss malformed numerals are refused, never joined into a wrong value
         for t in ["1.", ".5", "1..5", "1.5.2", "1,00", "1,0000", "1,,000", "十百", "億万", "1.5千5百", "1.5千500", "三百二十百", "万", "1万万", "1千万億1万億", "一十十", "2百3千"] {
             check(t.to_string(), None, &mut failures);
